@@ -85,6 +85,15 @@ func genC12(seed uint64, tier string) *Plan {
 		p.Sim.Strategy = simrt.Strategy{Kind: "random"}
 	}
 	p.Sim.MaxSteps = 80000
+	switch {
+	case r.Chance(0.25):
+		// without it writers are either blocked or run in zero simulated time, so
+		// they are never runnable at the instant the flusher's ticker fires
+		p.Sim.JitterNs = int64(5+r.Intn(300)) * 1000
+	case r.Chance(0.25):
+		p.Sim.PreemptEvery = 20 + r.Intn(200)
+		p.Sim.PreemptNs = int64(100+r.Intn(20000)) * 1000
+	}
 	return p
 }
 
